@@ -1,4 +1,4 @@
 ----------------------------- MODULE GuestClient_MC -----------------------------
 EXTENDS GuestClient, Json
-ExportCase == (pc = "start") => PrintT(<<"CASE", ToJson([via |-> via, dev |-> dev, prov |-> prov])>>)
+ExportCase == (pc = "start") => PrintT(<<"CASE", ToJson([via |-> via, dev |-> dev, prov |-> prov, prior |-> prior])>>)
 =================================================================================
